@@ -233,3 +233,189 @@ def check_C04(replay=None):
     for t in traces:
         os.remove(t)
     return chk.finish()
+
+
+# --------------------------------------------------------------------------------------------
+# Runs and debugger sessions: C03, C09-C13, C15, C16 (Trace_Debug.tla)
+# --------------------------------------------------------------------------------------------
+
+def _session_of(path, idx):
+    """The events of the session containing 1-based line idx (from its load event up to idx)."""
+    lines = []
+    with open(path) as f:
+        cur = []
+        for i, line in enumerate(f, 1):
+            e = json.loads(line)
+            if e["ev"] in ("load", "loadfail"):
+                cur = []
+            cur.append(e)
+            if i == idx:
+                lines = cur
+                break
+    return lines
+
+
+def _slim_ev(e):
+    e = dict(e)
+    for k in ("fin", "ref", "mem", "texts", "syms"):
+        if k in e and isinstance(e[k], (list, dict)) and len(json.dumps(e[k])) > 300:
+            e[k] = "<%d chars>" % len(json.dumps(e[k]))
+    return e
+
+
+def _dbg_key(reason, ev, load):
+    prog = load.get("id", "?").split(":")[1] if load else "?"
+    if reason in ("no-progress", "panic", "step-over-reentered", "load-state"):
+        return reason if reason != "panic" else "panic:" + ev.get("msg", "").split(" @ ")[0][:50]
+    if ev["ev"] == "cmd":
+        return "cmd:%s" % ev["c"]["n"]
+    if ev["ev"] == "stop":
+        return "stop:%s:%s" % (ev["kind"], ev.get("code"))
+    return ev["ev"]
+
+
+def _dbg_jobs_run(chk, jobs, nproc=8):
+    """jobs: list of (name, harness-args for `gen run`)."""
+    def gen(job):
+        name, args = job
+        out = _wpath("%s_%s.ndjson" % (chk.pid.lower(), name))
+        summ = harness(["gen", "run"] + args + ["--out", out])
+        res = tlc_trace("Trace_Debug", out, timeout=2400)
+        return out, summ, res
+    results = parallel(gen, jobs, nproc)
+    traces = []
+    for out, summ, res in results:
+        traces.append(out)
+        chk.add_trace(res, summ.get("sessions", 0))
+        chk.evaluations += summ.get("sessions", 0)
+        chk.extra["events"] = chk.extra.get("events", 0) + res["nrec"]
+        if res["consumed"] != res["nrec"]:
+            raise vlib.ToolError("Trace_Debug consumed %s of %s events of %s" % (res["consumed"], res["nrec"], out))
+        for i in sorted(res["bad"]):
+            sess = _session_of(out, i)
+            ev = sess[-1]
+            load = sess[0] if sess and sess[0]["ev"] == "load" else None
+            chk.violation(_dbg_key(res["bad"][i], ev, load),
+                          "session %s: event %s not explained by Debugger/Machine spec (%s): %s" %
+                          (load.get("id") if load else "?", ev["ev"], res["bad"][i], json.dumps(_slim_ev(ev))[:300]),
+                          {"family": "run", "reason": res["bad"][i], "session": [_slim_ev(e) if e["ev"] != "load" else e for e in sess]})
+    # load failures are reported by the harness as events; they are only legitimate for feature-flag flips
+    return traces
+
+
+def _run_family(pid, rule, assumptions, jobs_fn, replay, mc=None):
+    chk = Check(pid)
+    chk.rule = rule
+    chk.assumptions = assumptions
+    vlib.build()
+    if replay:
+        raise vlib.ToolError("replay of recorded sessions: re-run `bin/check %s` (sessions are regenerated from VERIF_SEED); the replay file holds the full failing session" % pid)
+    thorough = chk.tier == "thorough"
+    if mc:
+        for spec, cfg in mc(thorough):
+            res = tlc_mc(spec, cfg, workers=8, coverage=False, timeout=2400)
+            chk.add_mc(res, cfg)
+    traces = _dbg_jobs_run(chk, jobs_fn(chk, thorough))
+    chk.distinct = chk.evaluations
+    samples = []
+    for e in vlib.sample_lines(traces[0], 12):
+        if e["ev"] in ("load", "cmd", "exec") and len(samples) < 3:
+            samples.append(_slim_ev(e))
+    chk.samples = samples
+    for t in traces:
+        os.remove(t)
+    return chk.finish()
+
+
+DBG_ASSUME = ["observations are taken in --minimal mode through the cfg-gated hooks (state after every loop top, command and instruction as a diff over all 65,536 words)",
+              "sessions are bounded by a step budget; budget exhaustion is a violation unless the script mutates the program (it may then legitimately loop)",
+              "J3: `step` over a call is depth-aware in the spec"]
+
+
+def check_C03(replay=None):
+    def jobs(chk, thorough):
+        j = []
+        n = 400 if thorough else 40
+        for k in range(4):
+            j.append(("run%d" % k, ["--mode", "run", "--n", n // 4, "--seed", chk.seed * 11 + k]))
+        j.append(("tiny_ex", ["--mode", "tiny", "--n", 300 if thorough else 60, "--seed", chk.seed] + (["--exhaustive"] if thorough else [])))
+        if not thorough:
+            j.append(("tiny2", ["--mode", "tiny", "--n", 400, "--seed", chk.seed + 5]))
+        return j
+    return _run_family("C03",
+                       "session = program (hand-written catalogue in 2 layouts and with the feature flag flipped; seeded structured programs that terminate by construction: "
+                       "counted loops, JSR/RET and CALL/RETS subroutines, self-modifying stores, fall-off, jumps to 0xFFFF / below origin / >= 0xFE00, traps with input incl. non-ASCII and premature EOF; "
+                       "arbitrary word images <= 5 words at boundary origins under a step budget) run by the real RunEnvironment; Trace_Debug.tla (Machine spec) must explain the load state, "
+                       "every executed instruction (fetch address inside [origin, 0xFE00), word, full state diff, output, input) and the way the run stopped. distinct = sessions",
+                       DBG_ASSUME, jobs, replay, mc=lambda th: [("MC_Machine", "MC_Machine_deep.cfg" if th else "MC_Machine.cfg")])
+
+
+def _mc_dbg(kind):
+    def f(thorough):
+        if kind == "pure":
+            return [("MC_Debugger", "MC_Debugger_pure_deep.cfg" if thorough else "MC_Debugger_pure.cfg")]
+        if kind == "live":
+            return [("MC_Debugger", "MC_Debugger_live.cfg"), ("MC_Debugger", "MC_Debugger_deep.cfg" if thorough else "MC_Debugger.cfg")]
+        return [("MC_Debugger", "MC_Debugger_deep.cfg" if thorough else "MC_Debugger.cfg")]
+    return f
+
+
+def _dbg_jobs(focus, quick_n=24, quick_per=4, enum_len=None, extra=None):
+    def jobs(chk, thorough):
+        j = []
+        n = quick_n * 8 if thorough else quick_n
+        per = quick_per + 2 if thorough else quick_per
+        parts = 8 if thorough else 4
+        for k in range(parts):
+            j.append(("%s%d" % (focus, k), ["--mode", "debug", "--focus", focus, "--n", max(1, n // parts), "--per", per, "--seed", chk.seed * 17 + k]))
+        if enum_len:
+            stride = 2 if thorough else 12
+            L = enum_len + (1 if thorough else 0)
+            if thorough:
+                stride = 24
+            for ph in range(4):
+                j.append(("enum%d" % ph, ["--mode", "enum", "--len", L, "--stride", stride * 4, "--phase", ph * stride + (chk.seed % stride), "--seed", chk.seed]))
+        for name, args in (extra or []):
+            j.append((name, args + ["--seed", chk.seed]))
+        return j
+    return jobs
+
+
+DBG_RULE = ("session = program (catalogue of control-flow shapes + seeded structured programs, rendered in seeded layouts) x debugger script (%s) run by the real "
+            "RunEnvironment/Debugger with the script in Options.command; Trace_Debug.tla (Debugger spec) must explain every loop iteration (pause tags), every consumed command "
+            "(printed lines, full state diff over 65,536 words, breakpoint list), every executed instruction and the way the session ended. distinct = sessions")
+
+
+def check_C09(replay=None):
+    return _run_family("C09", DBG_RULE % "only non-mutating commands with arbitrary arguments, ending in quit / end of input; the same image is also run without debugger and final registers, PC, CC, all memory, output and exit kind are compared",
+                       DBG_ASSUME, _dbg_jobs("pure", enum_len=None), replay, mc=_mc_dbg("pure"))
+
+
+def check_C10(replay=None):
+    return _run_family("C10", DBG_RULE % "stepping commands: random scripts over step / step into k / step out / continue / break add/remove, plus ALL scripts up to a bounded length over that alphabet on the catalogue",
+                       DBG_ASSUME, _dbg_jobs("step", enum_len=2, extra=[("scn", ["--mode", "scenario"])]), replay, mc=_mc_dbg("mut"))
+
+
+def check_C11(replay=None):
+    return _run_family("C11", DBG_RULE % "breakpoint commands (add/remove/list by address, label, PC offset) mixed with every resuming command, on programs with .break in every position and loops revisiting breakpoints; the listed breakpoints must be sorted and duplicate-free",
+                       DBG_ASSUME, _dbg_jobs("break", enum_len=2, extra=[("scn", ["--mode", "scenario"])]), replay, mc=_mc_dbg("mut"))
+
+
+def check_C12(replay=None):
+    return _run_family("C12", DBG_RULE % "histories of execution, move, goto, eval and self-modifying stores followed by reset (repeated, and followed by a complete run); after reset the full 65,536-word state must equal the load state",
+                       DBG_ASSUME, _dbg_jobs("reset"), replay, mc=_mc_dbg("mut"))
+
+
+def check_C13(replay=None):
+    return _run_family("C13", DBG_RULE % "move / goto / break add/remove / print / assembly on absolute, label+-offset and ^offset locations at origin-1, origin, 0x7FFF, 0x8000, 0xFDFF, 0xFE00, 0xFFFF and with offsets +-32767/8",
+                       DBG_ASSUME, _dbg_jobs("loc", quick_n=32), replay, mc=_mc_dbg("mut"))
+
+
+def check_C15(replay=None):
+    return _run_family("C15", DBG_RULE % "eval of every register/immediate/base+offset/label-operand form at varying PCs (after goto / step into), refused forms (BR*, RTI, HALT, unknown traps) and malformed text (missing, surplus, wrong-kind operands, directives, two instructions)",
+                       DBG_ASSUME + ["literal PC offsets and JSR/JSRR/CALL link values under eval are unspecified and not generated"], _dbg_jobs("eval", quick_n=32), replay, mc=_mc_dbg("mut"))
+
+
+def check_C16(replay=None):
+    return _run_family("C16", DBG_RULE % "every resuming command issued at PC = 0xFFFF, below the origin, at/above 0xFE00 and parked on HALT (reached by computed jumps, goto, eval jmp), followed by end of input; the run-loop iteration count is bounded by executed instructions + consumed commands (ProgressBound) and the step budget must never be exhausted",
+                       DBG_ASSUME, _dbg_jobs("progress", enum_len=2), replay, mc=_mc_dbg("live"))
